@@ -110,3 +110,18 @@ func inMarkShared(fr *frame, a []value) value {
 	markShared()
 	return nil
 }
+
+func noteCopy(fr *frame, dst []value, n int) {
+	if fr == nil || isHarnessFn(fr.fn) {
+		return
+	}
+	if n > len(dst) {
+		n = len(dst)
+	}
+	for i := 0; i < n; i++ {
+		if I.shared[&dst[i]] {
+			I.sharedWrites = append(I.sharedWrites, "copy into shared slice at "+fr.pos())
+			return
+		}
+	}
+}
